@@ -18,6 +18,9 @@ pub static STALLED_AT: [AtomicUsize; NSITES] = [const { AtomicUsize::new(0) }; N
 
 /// hits of sites that are not part of an idle worker / timer-thread loop: the progress counter
 pub static PROGRESS: AtomicU64 = AtomicU64::new(0);
+/// how often a worker found its local queue empty-handed (SCHED_AFTER_POP_NONE): an idle worker passes here a few times
+/// per wake-up and then sleeps in its selector, millions of passes without any progress are a worker that spins
+pub static POP_NONE: AtomicU64 = AtomicU64::new(0);
 /// threads currently sleeping inside a planned stall
 pub static STALLING: AtomicUsize = AtomicUsize::new(0);
 pub static STALLS_HIT: AtomicUsize = AtomicUsize::new(0);
@@ -115,6 +118,9 @@ fn hook(s: u32, obj: usize) {
     TOTAL_HITS[si].fetch_add(1, Relaxed);
     let t = tidx();
     let idle = is_idle_site(s);
+    if s == site::SCHED_AFTER_POP_NONE {
+        POP_NONE.fetch_add(1, Relaxed);
+    }
     if !idle {
         PROGRESS.fetch_add(1, Relaxed);
         let pos = TRACE_POS.fetch_add(1, Relaxed);
